@@ -201,5 +201,8 @@ func RunC02(tier string) int {
 	})
 	run.Assume("forced-execution reasons are model inputs; states the documented rules do not fix (e.g. after an output-less dependency changed) are 'may' and not judged")
 	_ = grog.Config{}
+	if report.Part("equalouts") {
+		EqualOutputsPart(run, st, tierN(tier, 12, 150))
+	}
 	return run.Finish()
 }
